@@ -320,7 +320,9 @@ def run(ck):
                "per a length, two offset units, offset x delta, delta per kelvin ...): predicates, pairs of equal "
                "dimensionality, numbers, powers, conversions. 5 string parsing under both default_as_delta values. 6 log "
                "units: every ordered pair of log units and related linear units — the conversion plan exactly, the float "
-               "value |err| <= 1e-12*max(1,|expected|) against a 60-digit evaluation (a test), same-unit + - and * 2; 5b a Unit object as operand: Unit*Q, Q*Unit, Unit/Q, Q/Unit (scalar, array, in place), "
+               "value |err| <= 1e-12*max(1,|expected|) against a 60-digit evaluation (a test), same-unit + - and * 2; 5c ONE registry parsing the same strings with as_delta switched between parses (argument and "
+               "default_as_delta attribute, both orders; units, Quantity units, to_root_units) against registries that only "
+               "ever used one value; 5b a Unit object as operand: Unit*Q, Q*Unit, Unit/Q, Q/Unit (scalar, array, in place), "
                "number*Unit, Unit*number, number/Unit, Unit/number in all four modes must equal the Quantity(1, unit) spelling; == / != against the logarithmic map incl. both magnitudes zero. == and != of the exact streams "
                "are judged by root-unit values also when both magnitudes are exactly zero (scalar, array, every mode). 7 ONE registry with autoconvert_offset_to_baseunit switched at run time (built in "
                "either mode; Fraction and float): random sequences of conversions of compound containers, single units, "
@@ -969,6 +971,9 @@ def run(ck):
                        f"{form} with the Unit object {un} and the number {n_} ({'autoconvert' if auto else 'default'} mode) gives {o_u}; "
                        f"spelled with Quantity(1, {un}) it gives {o_q}", rp)
 
+    # 5c. one registry, as_delta (argument / default_as_delta attribute) switched between parses of the same strings
+    parse_toggle_stream(ck, rng, thorough, lines, [x for x in dict.fromkeys(strs) if x != "°C"], add, oracle)
+
     # 6. logarithmic units (floats)
     log_stream(ck, rng, thorough, add, oracle)
 
@@ -1182,6 +1187,79 @@ def toggle_stream(ck, rng, thorough, lines, units, comp, add, oracle):
                        f"one registry (built with autoconvert={start}), mode switched at run time: step {st} gives {got}, "
                        f"a fresh registry in that mode gives {exp}; reproducing sequence has {len(seq or hist)} steps",
                        {"op": "mode-sequence", "numeric": label, "constructed_with_autoconvert": start, "steps": seq or hist,
+                        "expected_last": repr(exp), "observed_last": repr(got)})
+
+
+# ---------------------------------------------------------------- one registry, as_delta switched between parses
+def parse_step(reg, st):
+    """one step of a parse sequence: how = 'arg' (parse_units(s, as_delta=X)), 'attr-parse' / 'attr-quantity' /
+    'attr-root' (set default_as_delta = X, then parse_units(s) / Quantity(10, s)._units / Quantity(10, s).to_root_units())"""
+    try:
+        if st["how"] == "arg":
+            return ("units", tuple(sorted(ucd(reg.parse_units(st["s"], as_delta=st["delta"])._units).items())))
+        reg.default_as_delta = st["delta"]
+        if st["how"] == "attr-parse":
+            return ("units", tuple(sorted(ucd(reg.parse_units(st["s"])._units).items())))
+        q = reg.Quantity(F(10), st["s"])
+        if st["how"] == "attr-quantity":
+            return ("units", tuple(sorted(ucd(q._units).items())))
+        r = q.to_root_units()
+        return ("val", F(r._magnitude), tuple(sorted(ucd(r._units).items())))
+    except Exception as e:  # noqa: BLE001
+        return ("err", err_class(e))
+
+
+def parse_toggle_stream(ck, rng, thorough, lines, strs, add, oracle):
+    """The delta reading of a unit expression depends on the as_delta in force for THAT parse (argument or
+    registry attribute), never on how the same string was parsed before: one registry parses random strings with
+    as_delta switched between parses; every answer must be the one of a registry that only ever used that value."""
+    import pint
+
+    def fresh(delta, auto):
+        r = pint.UnitRegistry(non_int_type=F, cache_folder=None, default_as_delta=delta, autoconvert_offset_to_baseunit=auto)
+        for ln in lines:
+            r.define(ln)
+        return r
+    n = 3000 if thorough else 700
+    for auto in (False, True):
+        ref = {d: fresh(d, auto) for d in (True, False)}       # each only ever parses in its own mode
+        for start in (True, False):
+            one, hist = fresh(start, auto), []
+            for _ in range(n // 4):
+                st = {"s": rng.choice(strs), "delta": rng.random() < 0.5,
+                      "how": rng.choice(["arg", "attr-parse", "attr-quantity", "attr-root"])}
+                if hist and rng.random() < 0.5:
+                    st = dict(st, s=rng.choice(hist[-6:])["s"])      # the same string again, maybe in the other reading
+                got = parse_step(one, st)
+                exp = parse_step(ref[st["delta"]], dict(st, how="attr-parse" if st["how"] == "arg" else st["how"]))
+                hist.append(st)
+                ck.case(key=("parse-toggle", st["s"], st["delta"], st["how"], auto))
+                ck.count("parse-toggle")
+                if got[0] == "units":
+                    try:
+                        toks = t1_defs.coq_toks(t1_defs.lex(st["s"]))
+                        add(f"KParse {coq_bool(st['delta'])} {toks} {coq_opt(coq_uc(dict(got[1])))}",
+                            {"op": "parse-sequence-step", "step": st, "observed": repr(got)}, ("parse-toggle-k", st["s"], st["delta"]), "parse-toggle:model")
+                    except t1_defs.T1Error:
+                        pass
+                if got == exp:
+                    continue
+                seq = None
+                for cand in ([dict(st, delta=not st["delta"], how=h), st] for h in ("arg", "attr-parse", "attr-quantity")):
+                    r = fresh(start, auto)
+                    if [parse_step(r, c) for c in cand][-1] == got:
+                        seq = cand
+                        break
+                if seq is None:
+                    for k in (2, 4, 8, 16, len(hist)):
+                        r = fresh(start, auto)
+                        if [parse_step(r, c) for c in hist[-k:]][-1] == got:
+                            seq = hist[-k:]
+                            break
+                oracle(False, f"parse-toggle:as_delta-{'on' if st['delta'] else 'off'}:{st['how']}:{st['s']}",
+                       f"one registry (default_as_delta={start} at construction): {st['how']} of {st['s']!r} with as_delta={st['delta']} gives {got}; "
+                       f"a registry that only ever used as_delta={st['delta']} gives {exp}; reproducing sequence: {seq or hist}",
+                       {"op": "parse-sequence", "constructed_with_default_as_delta": start, "autoconvert": auto, "steps": seq or hist,
                         "expected_last": repr(exp), "observed_last": repr(got)})
 
 
@@ -1425,6 +1503,19 @@ def replay(ck, path):
             except Exception as e:  # noqa: BLE001
                 print("Quantity(1, unit) spelling:" if spell else "Unit object:", "raises", type(e).__name__)
         return 0
+    if rp.get("op") == "parse-sequence":
+        def mk():
+            r = pint.UnitRegistry(non_int_type=F, cache_folder=None, default_as_delta=rp["constructed_with_default_as_delta"],
+                                  autoconvert_offset_to_baseunit=rp["autoconvert"])
+            for ln in rp.get("defs", []):
+                r.define(ln)
+            return r
+        reg = mk()
+        for st in rp["steps"]:
+            print(st, ":", parse_step(reg, st))
+        last = rp["steps"][-1]
+        print("a fresh registry, this step alone:", parse_step(mk(), last))
+        return 0
     if rp.get("op") == "mode-sequence":
         exactly = rp["numeric"] == "fraction"
         reg = pint.UnitRegistry(cache_folder=None, autoconvert_offset_to_baseunit=rp["constructed_with_autoconvert"],
@@ -1440,7 +1531,7 @@ def replay(ck, path):
             fresh.define(ln)
         print("a fresh registry in the last mode:", perform_step(fresh, rp["steps"][-1], exactly))
         return 0
-    if "op" not in rp or rp["op"] in ("path", "parse", "log-plan", "log-conv", "log-eq", "log-ne", "predicates", "mode-sequence-step"):
+    if "op" not in rp or rp["op"] in ("path", "parse", "log-plan", "log-conv", "log-eq", "log-ne", "predicates", "mode-sequence-step", "parse-sequence-step"):
         return 0
     mode = rp.get("mode", [False, True])
     reg = pint.UnitRegistry(non_int_type=F, cache_folder=None, autoconvert_offset_to_baseunit=mode[0], default_as_delta=mode[1])
